@@ -12,6 +12,7 @@ UNITS = {
     "int_encoders": {"template": "contracts/int_encoders.vrs", "rlimit": 30},
     "conditions_parse": {"template": "contracts/conditions_parse.vrs", "rlimit": 60},
     "costs": {"template": "contracts/costs.vrs", "rlimit": 30},
+    "streamable_core": {"template": "contracts/streamable_core.vrs", "rlimit": 60},
 }
 
 
@@ -114,6 +115,37 @@ PROPS["C04"] = {
     "not_covered": [
         "pre-charge accounting invariant in parse_conditions (cost charged before argument parsing, three accumulators)",
         "cost at the exits of run_block_generator / run_block_generator2 / run_spendbundle and the exact-limit lemma",
+    ],
+}
+
+_STREAM_ASSUME = [
+    "std contracts behind rewrites: to_be_bytes/from_be_bytes (uninterpreted injective be_T), slice range indexing, Vec::extend_from_slice, slice->array conversion, mem::size_of",
+    "std::io::Cursor<&[u8]> position/get_ref/set_position model (shims/cursor.rs)",
+    "Sha256 ghost model: update appends, finalize == sha256(absorbed)",
+]
+PROPS["C13"] = {
+    "level": "proof",
+    "technique": "Verus trait-level contract on the real Streamable trait and impls (extracted verbatim; macro arms expanded by token substitution): stream/update_digest/parse all against one accumulator-style encoding spec enc_onto",
+    "level_text": "Deductive proof, modular over the trait: for every impl under contract, stream appends exactly enc, update_digest absorbs exactly enc (so hash == sha256(enc)), and whenever parse (trusted or not: same contract) returns a value the consumed bytes are exactly that value's encoding (canonicity); from_bytes accepts only inputs that are entirely the encoding.",
+    "level_note": "Covered impls: 10 integer primitives, bool, (), Option<T>, tuples 2-4, Vec<T>, Bytes, BytesImpl<N>, trait default methods. Not yet: String, [T;N], Program, BLS elements, derived structs, hand-written versioned codecs (listed in not_covered). The decode(encode(x)) == x direction is argued by composition (prefix-free encodings) and not machine-checked.",
+    "components": [V("streamable_core")],
+    "assumptions": _STREAM_ASSUME,
+    "not_covered": [
+        "round-trip direction decode(encode(x)) == x (needs prefix-freeness lemmas per type)",
+        "String, [T;N], Program, PublicKey/Signature impls",
+        "derive(Streamable) impls (~140) and FullBlock/UnfinishedBlock/ProofOfSpace hand-written codecs",
+    ],
+}
+PROPS["C14"] = {
+    "level": "proof",
+    "technique": "Verus safety obligations generated from the real decoder bodies: every index, cast, addition, unwrap and loop in read_bytes and the covered impls; explicit allocation-cap obligation on Vec::with_capacity; from_bytes trailing/missing-bytes postcondition",
+    "level_text": "Deductive proof that for every byte string and cursor position, read_bytes and every covered parse impl neither index out of range nor overflow (pos <= len is an invariant of every parse), terminate (loops bounded by the u32 length prefix), allocate at most 2 MiB up front, and from_bytes rejects trailing or missing bytes; stream/update_digest/hash have no precondition beyond what parse establishes (wf).",
+    "level_note": "Same impl coverage and assumptions as C13. Memory = capacity argument of with_capacity; time = iteration counts.",
+    "components": [V("streamable_core")],
+    "assumptions": _STREAM_ASSUME,
+    "not_covered": [
+        "String, [T;N], Program (serialized_length_from_bytes), BLS element decoders",
+        "derived impls and hand-written versioned codecs (ProofOfSpace hash of a non-validating v2 proof is a reproduced defect, see DESIGN §7, not yet under contract)",
     ],
 }
 
